@@ -582,10 +582,13 @@ def gen_services(rng: random.Random) -> List[dict]:
         type_i = rng.choice([0, 0, 0, 1, 1, 2, 2, 3])
         host_i = rng.choice([0, 0, 0, 1, 1, 2, 2, 3])
         if host_i in host_addrs:
-            # one host name, one set of addresses: two services that announce different address sets under one name flush each
+            # services that share a host name may differ in the address *families* they give it (IPv4-only next to IPv6-only or
+            # dual), but not in the addresses of one family: two services that announce different A sets under one name flush each
             # other's records out of every cache (cache-flush bit), their own host's included -- a contradiction in the
             # configuration, not a history of the property's domain
-            addrs = host_addrs[host_i]
+            first = ADDR_SETS[host_addrs[host_i]]
+            ok = [k for k, (a4, a6) in ADDR_SETS.items() if k != 'none' and (not a4 or not first[0] or a4 == first[0]) and (not a6 or not first[1] or a6 == first[1])]
+            addrs = host_addrs[host_i] if rng.random() < 0.6 else rng.choice(sorted(ok))
         else:
             addrs = rng.choice(['v4', 'v4', 'v6', 'dual', 'two4', 'other4'])
         host_addrs.setdefault(host_i, addrs)
